@@ -82,7 +82,11 @@ def setFile : List (FPath × FileC) → FPath → FileC → List (FPath × FileC
   | (g, d) :: r, f, c => if g = f then (f, c) :: r else (g, d) :: setFile r f c
 
 def Fs.set (fs : Fs) (f : FPath) (c : FileC) : Fs := { fs with files := setFile fs.files f c }
-def Fs.del (fs : Fs) (f : FPath) : Fs := { fs with files := fs.files.filter (·.1 ≠ f) }
+def delFile : List (FPath × FileC) → FPath → List (FPath × FileC)
+  | [], _ => []
+  | (g, d) :: r, f => if g = f then delFile r f else (g, d) :: delFile r f
+
+def Fs.del (fs : Fs) (f : FPath) : Fs := { fs with files := delFile fs.files f }
 
 inductive Eff where
   | mkdir (p : Id)
@@ -123,18 +127,50 @@ def Content.isEmpty : Content → Bool
   | .ver es => es.isEmpty
   | .chain es => es.isEmpty
 
-/-- `VersionFile.write` / `ChainFile.write` of content `c` to record `r`.  `atomic` = the repaired writers. -/
-def writeRec (atomic : Bool) (fs : Fs) (r : RPath) (c : Content) : List Eff :=
-  if c.isEmpty then (if (fs.get (.main r)).isSome then [.unlink (.main r)] else [])
-  else if atomic then
-    [.creat (.tmp r)] ++ writes (.tmp r) c (chunks c) ++ [.close (.tmp r), .rename (.tmp r) (.main r)]
-  else
-    [if (fs.get (.main r)).isSome then .trunc (.main r) else .creat (.main r)] ++ writes (.main r) c (chunks c) ++
-      [.close (.main r)]
+/-! ## Record-level steps
+
+The commands are first described as a list of *steps* on whole records — what `Database` and `Eups` decide —
+and each step is then expanded into the file-system effects of the writer that carries it out. -/
+
+inductive Step where
+  | mkdir (p : Id)
+  | rmdir (p : Id)
+  | put (r : RPath) (c : Content)      -- `VersionFile.write` / `ChainFile.write` with at least one flavor
+  | remove (r : RPath)                 -- `os.remove(file)`
+  deriving DecidableEq, Repr
+
+def applyStep (fs : Fs) : Step → Fs
+  | .mkdir p => applyEff fs (.mkdir p)
+  | .rmdir p => applyEff fs (.rmdir p)
+  | .put r c => fs.set (.main r) (.complete c)
+  | .remove r => fs.del (.main r)
+
+def applySteps (fs : Fs) (ss : List Step) : Fs := ss.foldl applyStep fs
+
+/-- the effects that carry out one step started in state `fs`.  `atomic` = the repaired writers (temporary file
+beside the record, then rename); `atomic = false` = the pinned writers (`open(file, "w")` in place). -/
+def expand (atomic : Bool) (fs : Fs) : Step → List Eff
+  | .mkdir p => [.mkdir p]
+  | .rmdir p => [.rmdir p]
+  | .remove r => [.unlink (.main r)]
+  | .put r c =>
+    if atomic then
+      [.creat (.tmp r)] ++ writes (.tmp r) c (chunks c) ++ [.close (.tmp r), .rename (.tmp r) (.main r)]
+    else
+      [if (fs.get (.main r)).isSome then .trunc (.main r) else .creat (.main r)] ++ writes (.main r) c (chunks c) ++
+        [.close (.main r)]
+
+def expandAll (atomic : Bool) : Fs → List Step → List Eff
+  | _, [] => []
+  | fs, s :: ss => expand atomic fs s ++ expandAll atomic (applyStep fs s) ss
+
+/-- `VersionFile.write` / `ChainFile.write` of content `c` to record `r`: remove the file when no flavor is left -/
+def writeRec (fs : Fs) (r : RPath) (c : Content) : List Step :=
+  if c.isEmpty then (if (fs.get (.main r)).isSome then [.remove r] else [])
+  else [.put r c]
 
 /-- what `VersionFile(file)` yields: the blocks of a complete file; nothing for a missing or empty file.
-A partially written file is read as far as it goes — the model treats it like an empty one here and flags it in
-`read`. -/
+(A partially written file is read as far as it goes; the commands are only started in states without one.) -/
 def vread (fs : Fs) (p v : Id) : List VEntry :=
   match fs.get (.main (.vfile p v)) with
   | some (.complete (.ver es)) => es
@@ -165,24 +201,24 @@ structure Cfg where
   atomic : Bool := true
 
 /-- `Database.assignTag(tag, p, v, f)`; nothing happens (ProductNotFound) unless `(p, v, f)` is declared -/
-def dbAssignTag (cfg : Cfg) (fs : Fs) (t p v f : Id) : List Eff :=
+def dbAssignTag (fs : Fs) (t p v f : Id) : List Step :=
   if !hasFlavorV (vread fs p v) f then [] else
-  writeRec cfg.atomic fs (.cfile p t) (.chain (setVersionC (cread fs p t) f v))
+  writeRec fs (.cfile p t) (.chain (setVersionC (cread fs p t) f v))
 
 /-- `Database.unassignTag(tag, p, f)` -/
-def dbUnassignTag (cfg : Cfg) (fs : Fs) (t p f : Id) : List Eff :=
+def dbUnassignTag (fs : Fs) (t p f : Id) : List Step :=
   let es := cread fs p t
   if (chainVersion es f).isNone then [] else
-  writeRec cfg.atomic fs (.cfile p t) (.chain (es.filter (·.flavor ≠ f)))
+  writeRec fs (.cfile p t) (.chain (es.filter (·.flavor ≠ f)))
 
 /-- `Database.declare(product)` with `product.tags = tags` -/
-def dbDeclare (cfg : Cfg) (fs : Fs) (p v f : Id) (tag : Option Id) : List Eff :=
-  let e0 : List Eff := if p ∈ fs.dirs then [] else [.mkdir p]
-  let fs0 := applyAll fs e0
-  let e1 := writeRec cfg.atomic fs0 (.vfile p v) (.ver (addFlavorV (vread fs0 p v) f))
-  let fs1 := applyAll fs0 e1
+def dbDeclare (fs : Fs) (p v f : Id) (tag : Option Id) : List Step :=
+  let e0 : List Step := if p ∈ fs.dirs then [] else [.mkdir p]
+  let fs0 := applySteps fs e0
+  let e1 := writeRec fs0 (.vfile p v) (.ver (addFlavorV (vread fs0 p v) f))
+  let fs1 := applySteps fs0 e1
   let e2 := match tag with
-    | some t => dbAssignTag cfg fs1 t p v f
+    | some t => dbAssignTag fs1 t p v f
     | none => []
   e0 ++ e1 ++ e2
 
@@ -194,21 +230,21 @@ def findTags (fs : Fs) (p v f : Id) : List Id :=
       if p' = p && chainVersion es f = some v then some t else none
     | _, _ => none
 
-def unassignAll (cfg : Cfg) (p f : Id) : Fs → List Id → List Eff
+def unassignAll (p f : Id) : Fs → List Id → List Step
   | _, [] => []
   | fs, t :: ts =>
-    let e := dbUnassignTag cfg fs t p f
-    e ++ unassignAll cfg p f (applyAll fs e) ts
+    let e := dbUnassignTag fs t p f
+    e ++ unassignAll p f (applySteps fs e) ts
 
 /-- `Database.undeclare(product)` -/
-def dbUndeclare (cfg : Cfg) (fs : Fs) (p v f : Id) : List Eff :=
+def dbUndeclare (fs : Fs) (p v f : Id) : List Step :=
   if (fs.get (.main (.vfile p v))).isNone then [] else
   let es := vread fs p v
-  let e1 := if hasFlavorV es f then unassignAll cfg p f fs (findTags fs p v f) else []
-  let fs1 := applyAll fs e1
-  let e2 := if hasFlavorV es f then writeRec cfg.atomic fs1 (.vfile p v) (.ver (es.filter (·.flavor ≠ f))) else []
-  let fs2 := applyAll fs1 e2
-  let e3 : List Eff := if (fs2.get (.main (.vfile p v))).isNone then [.rmdir p] else []
+  let e1 := if hasFlavorV es f then unassignAll p f fs (findTags fs p v f) else []
+  let fs1 := applySteps fs e1
+  let e2 := if hasFlavorV es f then writeRec fs1 (.vfile p v) (.ver (es.filter (·.flavor ≠ f))) else []
+  let fs2 := applySteps fs1 e2
+  let e3 : List Step := if (fs2.get (.main (.vfile p v))).isNone then [.rmdir p] else []
   e1 ++ e2 ++ e3
 
 /-- the versions of `p` declared for flavor `f`, from the files -/
@@ -236,35 +272,43 @@ def taggedVersion (fs : Fs) (t p f : Id) : Option Id :=
   | some v => if hasFlavorV (vread fs p v) f then some v else none
   | none => none
 
-/-- the file-system effects of a command started in state `fs`, in order -/
-def effects (cfg : Cfg) (fs : Fs) : Cmd → List Eff
+/-- the tag a `declare` assigns: the one asked for, or `current` for the first version of a product -/
+def declareTag (fs : Fs) (p f : Id) (tag : Option Id) : Option Id :=
+  match tag with
+  | some t => some t
+  | none => if (versionsOf fs p f).isEmpty then some tagCurrent else none
+
+/-- the record-level steps of a command started in state `fs`, in order -/
+def steps (fs : Fs) : Cmd → List Step
   | .declare p v f tag force =>
-    let tag' : Option Id := match tag with
-      | some t => some t
-      | none => if (versionsOf fs p f).isEmpty then some tagCurrent else none
+    let tag' := declareTag fs p f tag
     let dodeclare := !hasFlavorV (vread fs p v) f || force
-    let e1 := if dodeclare then dbDeclare cfg fs p v f tag' else []
-    let fs1 := applyAll fs e1
+    let e1 := if dodeclare then dbDeclare fs p v f tag' else []
+    let fs1 := applySteps fs e1
     let e2 := match tag' with
       | none => []
       | some t =>
+        -- "delete all old occurrences of this tag … and set it in the proper place"
         let eu := match taggedVersion fs1 t p f with
-          | some _ => dbUnassignTag cfg fs1 t p f
+          | some _ => dbUnassignTag fs1 t p f
           | none => []
-        let fs2 := applyAll fs1 eu
-        eu ++ dbAssignTag cfg fs2 t p v f
+        let fs2 := applySteps fs1 eu
+        eu ++ dbAssignTag fs2 t p v f
     e1 ++ e2
   | .untag t p f v =>
     match v with
     | some v =>
       if !hasFlavorV (vread fs p v) f then [] else
-      if chainVersion (cread fs p t) f = some v then dbUnassignTag cfg fs t p f else []
+      if chainVersion (cread fs p t) f = some v then dbUnassignTag fs t p f else []
     | none =>
       match taggedVersion fs t p f with
-      | some _ => dbUnassignTag cfg fs t p f
+      | some _ => dbUnassignTag fs t p f
       | none => []
   | .undeclare p v f =>
-    if !hasFlavorV (vread fs p v) f then [] else dbUndeclare cfg fs p v f
+    if !hasFlavorV (vread fs p v) f then [] else dbUndeclare fs p v f
+
+/-- the file-system effects of a command started in state `fs`, in order -/
+def effects (cfg : Cfg) (fs : Fs) (c : Cmd) : List Eff := expandAll cfg.atomic fs (steps fs c)
 
 /-- the state a kill before effect number `k` leaves behind -/
 def crashAt (cfg : Cfg) (fs : Fs) (c : Cmd) (k : Nat) : Fs := applyAll fs ((effects cfg fs c).take k)
@@ -305,9 +349,9 @@ def read (fs : Fs) (r : RPath) : Seen := seenOf (fs.get (.main r))
 /-- the records a command may touch -/
 def targets (fs : Fs) : Cmd → List RPath
   | .declare p v f tag _ =>
-    [.vfile p v] ++ (match tag with
+    [.vfile p v] ++ (match declareTag fs p f tag with
       | some t => [.cfile p t]
-      | none => if (versionsOf fs p f).isEmpty then [.cfile p tagCurrent] else [])
+      | none => [])
   | .untag t p _ _ => [.cfile p t]
   | .undeclare p v f => [.vfile p v] ++ (findTags fs p v f).map (.cfile p ·)
 
